@@ -201,7 +201,8 @@ def replay(ctx, case):
     django_env.setup()
     sqla_env.engine()
     inst = case.get("instance_data") or R.canonical_instance()
-    inst = dict(inst, post_tags=[tuple(x) for x in inst["post_tags"]])
+    inst = dict(inst, post_tags=[tuple(x) for x in inst["post_tags"]],
+                post_labels=[tuple(x) for x in inst.get("post_labels", [])])
     django_env.load_relational(inst)
     sqla_env.load_relational(inst)
     g = R.Graph(inst)
